@@ -148,7 +148,7 @@ impl Property for C08 {
         let mut v = vec![];
         for (li, l) in layouts().iter().enumerate() {
             // duplicated time values, one per layout (finding F2 regression)
-            let recs = (0..6).map(|k| FRec { sec: 1_600_000_000 + [0i64, 1, 1, 0, 2, 1][k], usec: 7, null: 0, pid: 100 + k as i32, typ: 6, serial: k as u32, full: 0 }).collect();
+            let recs = (0..6).map(|k| FRec { sec: 1_600_000_000 + [0i64, 1, 1, 0, 2, 1][k], usec: 7, null: 0, pid: 100 + k as i32, typ: 6, serial: k as u32, full: 0, stale: 0 }).collect();
             v.push((format!("dup-times-{}", l.id), Case { file: FixedFile { layout: li, recs }, codec: Codec::Plain, bs: 65536, win: None }));
         }
         v
